@@ -2484,14 +2484,16 @@ class TupleStoreUnit(Unit):
     rule = ("tuple variation stores over 2 axes and 5 points: variation = (region in {peak +1, peak -1, intermediate, two-axis corner, "
             "two-axis mixed intermediate, second axis only} x None-mask); singles: every mask (32) x gvar (x,y) / cvar (scalar) "
             "deltas x shared points on/off x peak found in the shared tuples or embedded; pairs: all ordered pairs over 12 masks "
-            "(quick) / 32 masks (thorough); thorough also triples over 6 masks; whole cvar tables (singles, pairs over 6 masks) against a 5-value cvt; oracle: decompileTupleVariationStore(compile...) == "
+            "(quick) / 32 masks (thorough); thorough also triples over 6 masks; whole cvar tables (singles, pairs over 6 masks) against a 5-value cvt; stores over 130 and 300 points with {1,2,126,127,128,129,n-1,n} points touched (first / last / spread) x shared points on/off x one or two variations; oracle: decompileTupleVariationStore(compile...) == "
             "the variations that have at least one delta, struct reader (packed points/deltas per the spec) finds the same regions "
             "(intermediate tuples exactly when needed) and the same explicit deltas; distinct = each (variations, options)")
     required_witnesses = ("shared point numbers used", "private point numbers", "all points (count 0)", "embedded peak", "shared peak tuple",
-                          "intermediate region", "empty variation dropped", "cvar scalar deltas", "no variation left", "cvar table")
+                          "intermediate region", "empty variation dropped", "cvar scalar deltas", "no variation left", "cvar table",
+                          "127 of many points touched", "128 of many points touched", "129 of many points touched")
     chunk = 200
 
     def cases(self, tier, seed):
+        yield from self.big_cases()
         for ri in range(6):
             for mask in range(32):
                 for width in (2, 1):
@@ -2517,6 +2519,64 @@ class TupleStoreUnit(Unit):
                 for b in atoms:
                     for c in atoms:
                         yield [[list(a), list(b), list(c)], 2 if (a[0] + b[0]) % 2 == 0 else 1, (a[1] + c[1]) % 2, 1]
+
+    # ---- many points: the packed point-number count switches to two bytes at 128
+    BIG_N = (130, 300)
+    BIG_COUNTS = (1, 2, 126, 127, 128, 129)
+
+    def big_cases(self):
+        for npts in self.BIG_N:
+            for cnt in self.BIG_COUNTS + (npts - 1, npts):
+                for layout in ("first", "last", "spread"):
+                    for sp in (1, 0):
+                        for two in (0, 1):
+                            yield ["big", npts, cnt, layout, sp, two]
+
+    def check_big(self, case, rec):
+        _k, npts, cnt, layout, use_shared_pts, two = case
+        if layout == "first":
+            touched = list(range(cnt))
+        elif layout == "last":
+            touched = list(range(npts - cnt, npts))
+        else:
+            step = max(1, npts // cnt)
+            touched = sorted(set(range(0, npts, step)))[:cnt]
+            touched += [i for i in range(npts) if i not in touched][: cnt - len(touched)]
+            touched = sorted(touched)
+        assert len(touched) == cnt
+
+        def make(k):
+            coords = [None] * npts
+            for j, i in enumerate(touched):
+                coords[i] = ((j * 7 + k) % 200 - 100, (j * 3 - k) % 50 - 25)
+            return TV.TupleVariation(dict(TV_REGIONS[k % 2]), coords)
+
+        variations = [make(0)] + ([make(1)] if two else [])
+        rec.nontrivial()
+        rec.witness("%d of many points touched" % cnt if cnt in (127, 128, 129) else "many points")
+        count, tuples, data = TV.compileTupleVariationStore(variations, npts, TV_AXES, {}, useSharedPoints=bool(use_shared_pts))
+        blob = bytes(tuples) + bytes(data)
+        cls = "gvar-many-points:%s" % ("shared-points" if use_shared_pts else "private-points")
+        try:
+            got = TV.decompileTupleVariationStore("gvar", TV_AXES, count, npts, [], blob, 0, len(tuples))
+        except Exception as e:
+            rec.violation("tuple-store:decompile-raises:%s:%s" % (cls, type(e).__name__), "%d of %d points touched (%s): decompile raised %s: %s" % (cnt, npts, layout, type(e).__name__, e))
+            return
+        want = [make(k) for k in range(len(variations))]
+        if len(got) != len(want) or any(not (g == w) for g, w in zip(got, want)):
+            bad = [i for g, w in zip(got, want) for i in range(npts) if g.coordinates[i] != w.coordinates[i]][:5]
+            rec.violation("tuple-store:decompile:" + cls, "%d of %d points touched (%s): decompiled variations differ at points %s" % (cnt, npts, layout, bad))
+        try:
+            rd = R.tuple_variation_store(blob, 0, len(tuples), count, 2, npts, [], 2)
+        except R.ReadError as e:
+            rec.violation("tuple-store:reader:" + cls, "%d of %d points touched (%s): independent reader: %s" % (cnt, npts, layout, e))
+            return
+        exp = []
+        for k in range(len(variations)):
+            peak, start, end = tv_region_raw(TV_REGIONS[k % 2])
+            exp.append((peak, start, end, {i: c for i, c in enumerate(make(k).coordinates) if c is not None}))
+        if rd != exp:
+            rec.violation("tuple-store:reader:" + cls, "%d of %d points touched (%s): independent reader sees other deltas" % (cnt, npts, layout))
 
     def check_cvar_table(self, specs, rec):
         """the whole 'cvar' table: header + store, decompiled against a 5-value 'cvt '"""
@@ -2561,6 +2621,8 @@ class TupleStoreUnit(Unit):
     def check(self, case, rec):
         if case[0] == "cvartable":
             return self.check_cvar_table(case[1], rec)
+        if case[0] == "big":
+            return self.check_big(case, rec)
         specs, width, use_shared_pts, shared_tuple = case
         variations = [tv_make(ri, m, width, k) for k, (ri, m) in enumerate(specs)]
         rec.nontrivial()
